@@ -786,6 +786,20 @@ func choicesN(e *execution, n int) []int {
 	return out
 }
 
+// goStatementsInLibrary counts the `go` statements the instrumenter saw in the package under test.
+func goStatementsInLibrary(idir string) int {
+	b, err := os.ReadFile(idir + "/report.json")
+	if err != nil {
+		return 0
+	}
+	var rep map[string]interface{}
+	if json.Unmarshal(b, &rep) != nil {
+		return 0
+	}
+	n, _ := rep["go_statements"].(float64)
+	return int(n)
+}
+
 // ---- main ---------------------------------------------------------------------------------------------------------------------
 
 func main() {
@@ -838,6 +852,22 @@ func main() {
 	}
 	if rp := os.Getenv("VSCHED_REPLAY"); rp != "" {
 		os.Exit(replayScenario(rp, bs, maxBound, deadline))
+	}
+	// If the library starts goroutines of its own inside a call, those run outside the cooperative scheduler: the
+	// exploration below cannot represent them (and their calls into the shims would bring the process down). The
+	// free-running race-detector pass has already run the same bodies; when it reports races and the instrumenter saw
+	// `go` statements in the library, those reports are the verdict and the exploration is skipped.
+	if len(os.Args) > 3 && goStatementsInLibrary(idir) > 0 && os.Getenv("VSCHED_REPLAY") == "" {
+		rp := parseRaceLog(os.Args[3])
+		if reports, _ := rp["reports"].([]map[string]string); len(reports) > 0 {
+			for _, rep := range reports {
+				r.Report(ev.Finding{Sig: "race-detector:" + ev.SigSafe(rep["first_frame"]), Witness: "free-running -race pass", Detail: rep["text"], Case: map[string]interface{}{"race_pass": true}, Rank: 1})
+			}
+			r.Exhaustive = false
+			r.Set("race_pass", rp)
+			r.Set("exploration_skipped", "the library starts goroutines inside calls; schedules of those are not explored, the race detector's reports stand")
+			os.Exit(r.Finish())
+		}
 	}
 	var claimed, controls []int
 	for i, b := range bs {
